@@ -90,6 +90,12 @@ def children():
     g.add_node("u0_y", type="and", output=True)
     g.add_edges_from([("a", "y"), ("u0_a", "y"), ("u1_a", "u0_y"), ("i_a", "u0_y"), ("a", "u0_y")])
     out["pfx"] = proj_graph(g, "pfx")
+    g = nx.DiGraph()           # a port that nothing inside reads (left out of connection maps now and then)
+    for n in ("a", "spare", "b"):
+        g.add_node(n, type="input", output=False)
+    g.add_node("y", type="nand", output=True)
+    g.add_edges_from([("a", "y"), ("b", "y")])
+    out["spare"] = proj_graph(g, "spare")
     return out
 
 
